@@ -281,10 +281,14 @@ def _reused_switching_function(ctx, case, els, X, rng):
     try:
         perceive(sf, els, X)  # first use with the default table
         i, j = rng.sample(range(n), 2)
-        val = float(sf.connectivity_cutoff[(PERIODIC_TABLE[els[i]], PERIODIC_TABLE[els[j]])]) * rng.choice([0.5, 0.5, 0.8, 1.3, 1.7])
-        for key in ((PERIODIC_TABLE[els[i]], PERIODIC_TABLE[els[j]]), (PERIODIC_TABLE[els[j]], PERIODIC_TABLE[els[i]])):
+        val = float(sf.connectivity_cutoff[(PERIODIC_TABLE[els[i]], PERIODIC_TABLE[els[j]])]) * rng.choice([0.5, 0.5, 0.8, 1.3, 1.7, 0.0])
+        keys = [(PERIODIC_TABLE[els[i]], PERIODIC_TABLE[els[j]]), (PERIODIC_TABLE[els[j]], PERIODIC_TABLE[els[i]])]
+        if rng.random() < 0.4:  # one orientation stored, the other answered by the table's symmetric lookup
+            sf, keys = BondsFromDistance(), keys[:1]
+        for key in keys:
             sf.connectivity_cutoff[key] = val
             edits.append((key, val))
+        bonds_seen = {}
         for tag, e, Y in orders:
             ctx.count("reused_switching_function_perceptions")
             got, want = perceive(sf, e, Y), perceive(fresh(), e, Y)
@@ -293,9 +297,15 @@ def _reused_switching_function(ctx, case, els, X, rng):
                 ctx.count("reused_switching_function_both_raise")
             else:
                 d = sem.pg_diff(want, got, mode="exact")
+            if "raised" not in got:
+                back = {new: old for new, old in enumerate(perm)} if tag == "reordered" else {k: k for k in range(n)}
+                bonds_seen[tag] = {frozenset(back[a] for a in b) for b in got["bonds"]}
             if d:
                 ctx.violate(f"C07/depends-on-history-of-switching-function/{tag}", f"a BondsFromDistance object used before and then given another cut-off for elements {els[i]}/{els[j]} yields a different graph than a new object with the same table ({tag}): {d[0]}", case)
                 return
+        if len(bonds_seen) == 2 and bonds_seen["same-order"] != bonds_seen["reordered"]:
+            diffb = sorted(map(sorted, bonds_seen["same-order"] ^ bonds_seen["reordered"]))[:3]
+            ctx.violate("C07/not-invariant/permutation/bonds/edited-cutoff-table", f"with the cut-off for elements {els[i]}/{els[j]} set to {val!r} ({len(keys)} key order(s) stored) the bonds depend on the atom order: {diffb}", case)
     except Exception as e:  # noqa: BLE001
         ctx.violate(f"C07/from_geometry-raises:{type(e).__name__}/reused-switching-function", f"{e!r}", case)
 
